@@ -11,6 +11,7 @@ from .hist import Index
 A, B = 0xAABBCCDDEE01, 0xAABBCCDDEE02
 ADDRS = [A, B]
 HANDLES = [1, 2]
+REPLY_HANDLES = [1, 2, 0, 1, 2]  # handle 0: how the proxy reports device-level failures (and a falsy value)
 EPS = 1e-6
 
 RESP = {"ble.read": "BluetoothGATTReadResponse", "ble.write": "BluetoothGATTWriteResponse", "ble.notify": "BluetoothGATTNotifyResponse"}
@@ -171,7 +172,9 @@ def ble_oracle(ix: Index, scn: dict) -> list[Violation]:
                 continue
             if abs(op.t1 - deadline) > EPS * max(1.0, timeout):
                 out.append(Violation("timeout-time", op.do, f"{op.actor} {op.do} timed out at {op.t1:.6f}, expected {deadline:.6f}"))
-            if kind != "none" and key[2] < deadline - 1e-9 and not tie:
+            # within one turn I/O callbacks run before due timers: a reply dispatched in the turn in which the timeout
+            # timer fired (end_turn - 1) completed the operation first
+            if kind != "none" and ((key[2] < deadline - 1e-9 and key[0] < end_turn - 1) or key[0] == end_turn - 1):
                 out.append(Violation("timeout-despite-reply", op.do, f"{op.actor} {op.do}({op.args.get('address'):#x},{op.args.get('handle')}) timed out although its {kind} reply was delivered at {key[2]:.6f}"))
             continue
         if cls == "BluetoothGATTAPIError":
@@ -305,11 +308,11 @@ def gen_c16(rng: random.Random) -> dict:
         elif r < 0.6:
             msgs = reply_msgs(rng, MATCH[do], addr, 3 - h)  # foreign handle
         elif r < 0.7:
-            msgs = reply_msgs(rng, "error", pick(rng, ADDRS), pick(rng, HANDLES))
+            msgs = reply_msgs(rng, "error", pick(rng, ADDRS), pick(rng, REPLY_HANDLES))
         elif r < 0.8:
             msgs = reply_msgs(rng, "conn", pick(rng, ADDRS), 0)
         else:
-            msgs = reply_msgs(rng, pick(rng, ALLKINDS), pick(rng, ADDRS), pick(rng, HANDLES))
+            msgs = reply_msgs(rng, pick(rng, ALLKINDS), pick(rng, ADDRS), pick(rng, REPLY_HANDLES))
         rr = rng.random()
         if rr < 0.25:
             trig = {"on": "op_start", "match": {"actor": w}}
